@@ -11,7 +11,13 @@ package props
 //   bufio     L2 of the bufio.Writer mirror alone (real bufio over the same fault sink).
 //   truncate  every strict prefix of every produced file is rejected by OpenFile or by the first read
 //             that needs the missing bytes; L2 of the trailer stage against `open.model`.
-//   readat    an io.ReaderAt failing / short-reading at call index i, for every i of open + full read.
+//   readat    an io.ReaderAt failing / short-reading at call index i, for every i of open + full read,
+//             under read histories (sequential, seeks, CopyRows / ReadRowsFrom, dictionary first,
+//             point lookups: bloom filter probes of present keys and lazily read page indexes).
+//   copysrc   (c14_copysrc.go) the source of Writer.WriteRowGroup fails.
+//   compose   (c14_compose.go) one input fails under the composite readers (merges, MultiRowGroup,
+//             ConvertRowGroup, reader adaptors, typed readers); L1 + L2 of the two-way merge over
+//             scripted sources and of the lazy bloom probe.
 
 import (
 	"bufio"
@@ -33,6 +39,7 @@ import (
 	"time"
 
 	"github.com/parquet-go/parquet-go"
+	"github.com/parquet-go/parquet-go/bloom"
 	"github.com/parquet-go/parquet-go/encoding/thrift"
 	"github.com/parquet-go/parquet-go/format"
 
@@ -431,6 +438,104 @@ func c14RowsSteps(schema *parquet.Schema, rows reflect.Value, batches []int, opt
 	}
 }
 
+// c14Wrap puts one of the library's RowWriter adaptors in front of w and says how many of the rows
+// reach w. The adaptors sit between the application and the writer, so an error of the destination
+// has to come out of *their* WriteRows.
+func c14Wrap(kind string, w parquet.RowWriter, rows []parquet.Row) (rw parquet.RowWriter, kept int) {
+	keep := func(row parquet.Row) bool { return len(row) > 0 && row[0].Int64()%5 != 0 }
+	switch kind {
+	case "filter":
+		for _, row := range rows {
+			if keep(row) {
+				kept++
+			}
+		}
+		return parquet.FilterRowWriter(w, keep), kept
+	case "transform":
+		for _, row := range rows {
+			if keep(row) {
+				kept++
+			}
+		}
+		return parquet.TransformRowWriter(w, func(dst, src parquet.Row) (parquet.Row, error) {
+			if !keep(src) {
+				return dst, nil
+			}
+			return append(dst, src...), nil
+		}), kept
+	case "dedupe":
+		cmp := func(a, b parquet.Row) int {
+			switch x, y := a[0].Int64(), b[0].Int64(); {
+			case x < y:
+				return -1
+			case x > y:
+				return 1
+			}
+			return 0
+		}
+		for i, row := range rows {
+			if i == 0 || cmp(rows[i-1], row) != 0 {
+				kept++
+			}
+		}
+		return parquet.DedupeRowWriter(w, cmp), kept
+	case "multi":
+		return parquet.MultiRowWriter(w), len(rows)
+	}
+	panic("c14: unknown adaptor " + kind)
+}
+
+// a RowWriter adaptor of the library (FilterRowWriter, TransformRowWriter, DedupeRowWriter,
+// MultiRowWriter) in front of a Writer: WriteRows on the adaptor in batches (or one parquet.CopyRows
+// into it), Close on the writer. Only a non-nil error counts as a report.
+func c14WrapSteps(kind string, copyRows bool, schema *parquet.Schema, prs []parquet.Row, batches []int, opts ...parquet.WriterOption) func(e *c14Env) {
+	return func(e *c14Env) {
+		var w *parquet.Writer
+		var rw parquet.RowWriter
+		e.call("New", false, func() error {
+			w = parquet.NewWriter(e.dest, append(append([]parquet.WriterOption{schema}, opts...), e.opts...)...)
+			rw, _ = c14Wrap(kind, w, prs)
+			return nil
+		})
+		if w == nil {
+			return
+		}
+		rest := prs
+		if copyRows {
+			e.call("CopyRows", false, func() error {
+				i := 0
+				_, err := parquet.CopyRows(rw, parquet.RowReaderFunc(func(buf []parquet.Row) (int, error) {
+					n := 0
+					for n < len(buf) && n < 7 && i < len(rest) {
+						buf[n] = append(buf[n][:0], rest[i]...)
+						n, i = n+1, i+1
+					}
+					if i == len(rest) {
+						return n, io.EOF
+					}
+					return n, nil
+				}))
+				return err
+			})
+		} else {
+			for _, b := range batches {
+				if b > len(rest) {
+					b = len(rest)
+				}
+				if b > 0 {
+					part := rest[:b]
+					e.call("WriteRows", false, func() error { _, err := rw.WriteRows(part); return err })
+				}
+				rest = rest[b:]
+			}
+			if len(rest) > 0 {
+				e.call("WriteRows", false, func() error { _, err := rw.WriteRows(rest); return err })
+			}
+		}
+		e.call("Close", true, w.Close)
+	}
+}
+
 // WriteRowGroup of every row group of a source file (verbatim copy path when the options allow it)
 func c14CopySteps(src []byte, opts ...parquet.WriterOption) func(e *c14Env) {
 	return func(e *c14Env) {
@@ -619,6 +724,32 @@ func c14Configs(ctx *core.Ctx) []*c14Config {
 			run: c14SortingSteps(rows, []int{11, 11, 11}, 10, sortOpt, parquet.PageBufferSize(200))}
 		c.desc = "c14Row path=sorting-writer rows=40 batches=[11 11 11] sortRowCount=10 sort=k pagebuf=200 buf=20"
 		add(c)
+	}
+	// the RowWriter adaptors of the library in front of a Writer whose row groups are flushed from
+	// inside WriteRows (MaxRowsPerRowGroup): the destination fails while the adaptor is the caller
+	{
+		schema := parquet.SchemaOf(c14Row{})
+		srows := append([]c14Row{}, rows...)
+		sort.SliceStable(srows, func(i, j int) bool { return srows[i].K/40 < srows[j].K/40 })
+		for i := range srows {
+			srows[i].K = srows[i].K / 40 // few distinct keys: consecutive duplicates for the dedupe adaptor
+		}
+		var prs []parquet.Row
+		for i := range srows {
+			prs = append(prs, schema.Deconstruct(nil, &srows[i]))
+		}
+		for i, kind := range []string{"filter", "transform", "dedupe", "multi", "filter"} {
+			viaCopy := i == 4
+			_, kept := c14Wrap(kind, nil, prs)
+			name := "wrap-" + kind
+			if viaCopy {
+				name += "-copyrows"
+			}
+			c := &c14Config{name: name, path: name, bufSize: []int{0, 30, 11, 64, 17}[i], l2buffered: true, nrows: kept,
+				run: c14WrapSteps(kind, viaCopy, schema, prs, []int{13, 13}, parquet.MaxRowsPerRowGroup(6), parquet.PageBufferSize(128))}
+			c.desc = fmt.Sprintf("c14Row path=%s rows=%d (kept %d) batches=[13 13] maxrows=6 pagebuf=128 buf=%d", name, len(prs), kept, c.bufSize)
+			add(c)
+		}
 	}
 	// WriteRowGroup copy path: source files written fault-free first
 	for i, withBloom := range []bool{false, true, true} {
@@ -1350,6 +1481,9 @@ type c14File struct {
 	onlyMode string
 	onlyKeep int
 	onlyHist string
+
+	probeOnce sync.Once
+	probes    []c14Probe
 }
 
 func c14Files(ctx *core.Ctx) []*c14File {
@@ -1902,7 +2036,120 @@ func c14Histories(ctx *core.Ctx) []c14History {
 	hs = append(hs, c14History{"readrowsfrom-seek-1/3", func(r io.ReaderAt, size int64, f *c14File) (string, string, error) {
 		return c14SeekRowsVia(r, size, f, 1, 3, "readrowsfrom")
 	}})
+	// what a point lookup reads instead of rows: the bloom filter of every chunk probed with keys
+	// that are present (a lazily probed filter reads one 32-byte block per Check), the column and
+	// offset index of every chunk; once with the defaults of OpenFile and once with everything
+	// deferred to the moment of the lookup
+	hs = append(hs, c14History{"lookup-default", func(r io.ReaderAt, size int64, f *c14File) (string, string, error) {
+		return c14Lookup(r, size, f, false)
+	}})
+	hs = append(hs, c14History{"lookup-lazy", func(r io.ReaderAt, size int64, f *c14File) (string, string, error) {
+		return c14Lookup(r, size, f, true)
+	}})
 	return hs
+}
+
+type c14Probe struct {
+	rg, col int
+	val     parquet.Value
+}
+
+// c14Probes lists, per (row group, leaf column), up to 12 distinct non-null values that the chunk
+// holds (read once from the intact bytes): the keys a lookup may ask the bloom filter for.
+func c14Probes(f *c14File) []c14Probe {
+	f.probeOnce.Do(func() {
+		defer func() { recover() }()
+		pf, err := parquet.OpenFile(bytes.NewReader(f.data), int64(len(f.data)), f.opts...)
+		if err != nil {
+			return
+		}
+		for gi, rg := range pf.RowGroups() {
+			seen := map[string]bool{}
+			count := map[int]int{}
+			rows := rg.Rows()
+			buf := make([]parquet.Row, 16)
+			for {
+				n, err := rows.ReadRows(buf)
+				for _, row := range buf[:n] {
+					for _, v := range row {
+						k := fmt.Sprintf("%d/%s", v.Column(), gen.ValueKey(v))
+						if v.IsNull() || seen[k] || count[v.Column()] >= 12 {
+							continue
+						}
+						seen[k] = true
+						count[v.Column()]++
+						f.probes = append(f.probes, c14Probe{gi, v.Column(), v.Clone()})
+					}
+				}
+				if err != nil || n == 0 {
+					break
+				}
+			}
+			rows.Close()
+		}
+	})
+	return f.probes
+}
+
+var c14ZeroBlock = make([]byte, bloom.BlockSize)
+
+func c14Lookup(r io.ReaderAt, size int64, f *c14File, lazy bool) (class, digest string, err error) {
+	defer func() {
+		if p := recover(); p != nil {
+			class, err = "panic", fmt.Errorf("%v | %s", p, c14Stack())
+		}
+	}()
+	opts := append([]parquet.FileOption{}, f.opts...)
+	if lazy {
+		opts = append(opts, parquet.SkipPageIndex(true), parquet.SkipBloomFilters(true))
+	}
+	probes := c14Probes(f)
+	pf, err := parquet.OpenFile(r, size, opts...)
+	if err != nil {
+		return "open-error", "", err
+	}
+	var sb strings.Builder
+	for gi, rg := range pf.RowGroups() {
+		for ci, cc := range rg.ColumnChunks() {
+			if bf := cc.BloomFilter(); bf != nil {
+				for _, p := range probes {
+					if p.rg != gi || p.col != ci {
+						continue
+					}
+					// dirty destination buffers: the probe that follows takes its block from a pool;
+					// leave one there that holds no bits (a zeroed filter answers "absent")
+					bloom.CheckSplitBlock(bytes.NewReader(c14ZeroBlock), bloom.BlockSize, 0)
+					ok, err := bf.Check(p.val)
+					if err != nil {
+						return "read-error", "", err
+					}
+					fmt.Fprintf(&sb, "rg%d col%d bloom(%s)=%v;", gi, ci, gen.ValueKey(p.val), ok)
+				}
+			}
+			index, err := cc.ColumnIndex()
+			switch {
+			case err == parquet.ErrMissingColumnIndex:
+			case err != nil:
+				return "read-error", "", err
+			default:
+				for i := 0; i < index.NumPages(); i++ {
+					fmt.Fprintf(&sb, "rg%d col%d page%d [%s %s] nulls=%d/%v;", gi, ci, i, gen.ValueKey(index.MinValue(i)), gen.ValueKey(index.MaxValue(i)), index.NullCount(i), index.NullPage(i))
+				}
+			}
+			oi, err := cc.OffsetIndex()
+			switch {
+			case err == parquet.ErrMissingOffsetIndex:
+			case err != nil:
+				return "read-error", "", err
+			default:
+				for i := 0; i < oi.NumPages(); i++ {
+					fmt.Fprintf(&sb, "rg%d col%d page%d @%d+%d row %d;", gi, ci, i, oi.Offset(i), oi.CompressedPageSize(i), oi.FirstRowIndex(i))
+				}
+			}
+		}
+		sb.WriteByte('\n')
+	}
+	return "ok", sb.String(), nil
 }
 
 // c14Collector is the RowWriter the copy histories write to: it digests what it is given
@@ -2210,7 +2457,11 @@ func c14ReadAtHistory(ctx *core.Ctx, f *c14File, h c14History, bounds []int64, s
 				if h.name != "sequential" {
 					key += " " + hk
 				}
-				ctx.Fail("L1", key, fmt.Sprintf("ReadAt call %d fails (%s) and the reader returns fewer or different rows without an error", i, mode), detail)
+				what := "the reader returns fewer or different rows without an error"
+				if strings.HasPrefix(h.name, "lookup") {
+					what = "the lookup is answered differently (a bloom filter says absent for a key the chunk holds, or the page index differs) without an error: the rows behind it are missed"
+				}
+				ctx.Fail("L1", key, fmt.Sprintf("ReadAt call %d fails (%s) and %s", i, mode, what), detail)
 			case "complete":
 				// every row was returned although a read failed: the bytes were not needed or were
 				// fetched again; not a loss, counted
